@@ -338,6 +338,7 @@ class Check:
         self.assumptions = []
         self.exhaustive = False
         self.rule = ""
+        shutil.rmtree(os.path.join(VERIF, "replays", pid), ignore_errors=True)
 
     def count(self, key, n=1):
         self.counters[key] = self.counters.get(key, 0) + n
@@ -433,13 +434,21 @@ class Check:
         return rc
 
     # correspondence helper -------------------------------------------------------------------
-    def correspond(self, impl, model, cases, max_ulp=0, rel=0.0, abs_tol=0.0, label="corr"):
+    def known(self, fid, text):
+        """record that a listed known finding was met (reported as KNOWN-FINDING, does not fail the check)"""
+        listed = {f["id"]: f for f in known_findings(self.pid)}
+        if fid in listed:
+            self.known_hits[fid] = listed[fid].get("text", text)
+            return True
+        return False
+
+    def correspond(self, impl, model, cases, max_ulp=0, rel=0.0, abs_tol=0.0, label="corr", skip=()):
         """compare implementation and model answers case by case; returns list of disagreeing indices"""
         bad = []
         if len(impl) != len(model):
             raise BuildError("answer count mismatch impl=%d model=%d" % (len(impl), len(model)))
         for i, (a, b) in enumerate(zip(impl, model)):
-            if b == "skip":
+            if b == "skip" or i in skip:
                 self.corr["not_modelled"] = self.corr.get("not_modelled", 0) + 1
                 continue
             self.corr["cases"] += 1
